@@ -1,6 +1,7 @@
 def units_for(prop, reg, tier):
-    from . import core, tempo, notes, sections      # noqa: F401  (registration)
+    from . import core, tempo, notes, sections, locality      # noqa: F401  (registration)
     tempo.register(reg)
     notes.register(reg)
     sections.register(reg)
+    locality.register(reg)
     return [("lemmas.core:run_lemma", n) for n, l in core.LEMMAS.items() if prop in l.props]
